@@ -62,6 +62,19 @@ def cases(tier, seed):
                     for pixel in (False, True):
                         yield dict(kind="line_size", sc=sc, start=start, ext=ek / 4, size=size, pixel=pixel)
         if sc == 1.0:
+            # the same integral arguments passed as Python ints / numpy integer scalars / numpy float32 scalars
+            for start in (-3, 0, 1000):
+                for ext in range(0, 6):
+                    for sp in range(1, 7):
+                        for adjust in ("spacing", "region"):
+                            for pixel in (False, True):
+                                for at in ("int", "np.int64", "np.float32"):
+                                    yield dict(kind="line_spacing", sc=1.0, start=float(start), ext=float(ext), sp=float(sp), adjust=adjust, pixel=pixel, argtype=at)
+            for region in REGIONS[:2]:
+                for spec in (dict(shape=[2, 3]), dict(spacing=1.0), dict(spacing=[2.0, 1.0])):
+                    for adjust in ("spacing", "region"):
+                        for pixel in (False, True):
+                            yield dict(kind="grid", sc=1.0, region=region, spec=spec, adjust=adjust, pixel=pixel, mesh=True, extra=None, argtype="int")
             # non-dyadic extents with many nodes: both bounds must still be hit exactly (added after seed C13-1)
             for start, stop in ((0.0, 0.7), (0.0, 5.0), (-3.3, 0.0), (0.0, 10.0), (1.1, 7.3), (-0.1, 0.2)):
                 for size in range(2, 161):
@@ -121,7 +134,8 @@ def run(case, rec):
             nodes, step, end = G.line_nodes_spacing(start, stop, sp, adjust, pixel, k)
             layouts[k] = nodes
             ends[k] = (step, end)
-        got = call(rec, vd.line_coordinates, start, stop, spacing=sp, adjust=adjust, pixel_register=pixel)
+        conv = {"int": int, "np.int64": np.int64, "np.float32": np.float32}.get(case.get("argtype"), float)
+        got = call(rec, vd.line_coordinates, conv(start), conv(stop), spacing=conv(sp), adjust=adjust, pixel_register=pixel)
         k = _check_line(rec, got, layouts, (start, stop, float(max(e for _, e in ends.values()))), "line_coordinates")
         if k is not None:
             got = np.asarray(got)
@@ -187,6 +201,10 @@ def run(case, rec):
         else:
             s = spec["spacing"]
             kw["spacing"] = tuple(v * sc for v in s) if isinstance(s, list) else s * sc
+        if case.get("argtype") == "int":
+            region = [int(v) for v in region]
+            if "spacing" in kw:
+                kw["spacing"] = tuple(int(v) for v in kw["spacing"]) if isinstance(kw["spacing"], tuple) else int(kw["spacing"])
         got = call(rec, vd.grid_coordinates, region, **kw)
         if not mesh and extra is not None:
             rec.trivial = True
